@@ -166,6 +166,58 @@ impl<'a> Gen<'a> {
         (g.exec)("R dump".into());
         (g.exec)("R check".into());
     }
+    /// very wide NODES: a capacity in the hundreds, so that half a leaf is bigger than a page of memory and a handful of
+    /// leaves hold more than a thousand entries; growth, overwrites, a drain, the arenas on the way
+    pub fn fat(&mut self, case: usize) {
+        let g = self;
+        (g.exec)("R drop".into());
+        g.cap = [210, 256, 300, 513, 601][g.rng.below(5) as usize];
+        g.universe = (g.cap as i64) * 8;
+        g.base = 0;
+        g.present.clear();
+        g.removed.clear();
+        let c = g.cap;
+        (g.exec)(format!("R new {}", c));
+        let n = g.cap * 2 + g.cap / 2 + g.rng.below(g.cap as u64) as usize;
+        let pattern = (case / 7) % 3;
+        for i in 0..n {
+            let k = match pattern {
+                0 => (i as i64) * 2,
+                1 => (n - i) as i64 * 2,
+                _ => g.base + g.rng.range(0, g.universe),
+            };
+            g.insert(k);
+            if i % 64 == 63 {
+                (g.exec)("R counts".into());
+            }
+        }
+        (g.exec)("R dump".into());
+        (g.exec)("R items".into());
+        (g.exec)("R check".into());
+        let keys: Vec<i64> = g.present.iter().copied().collect();
+        for (i, k) in keys.iter().enumerate() {
+            match i % 7 {
+                0 => {
+                    (g.exec)(format!("R get {}", k));
+                }
+                1 => g.insert(*k),
+                2 | 3 => g.remove(*k),
+                _ => {}
+            }
+        }
+        (g.exec)("R dump".into());
+        let keys: Vec<i64> = g.present.iter().copied().collect();
+        let from_top = g.rng.chance(50);
+        for i in 0..(keys.len() * 3 / 4) {
+            let k = if from_top { keys[keys.len() - 1 - i] } else { keys[i] };
+            g.remove(k);
+            if i % 64 == 63 {
+                (g.exec)("R counts".into());
+            }
+        }
+        (g.exec)("R dump".into());
+        (g.exec)("R check".into());
+    }
     /// a burst of mutations with one of several key patterns
     pub fn mutate(&mut self, steps: usize, grow_bias: u64, dump_every: usize) {
         let pattern = self.rng.below(6);
@@ -273,6 +325,10 @@ pub fn gen_ops(rng: &mut Rng, len: usize, exec: &mut dyn FnMut(String) -> String
     }
     if case % 11 == 5 {
         g.wide(case);
+        done = len / 2;
+    }
+    if case % 37 == 7 {
+        g.fat(case);
         done = len / 2;
     }
     while done < len {
@@ -911,14 +967,43 @@ pub fn gen_damage(rng: &mut Rng, len: usize, exec: &mut dyn FnMut(String) -> Str
         "arity" => {
             if let Some(id) = pick(&mut g, &live_branches) {
                 let mut cs = d.branches[id as usize].children.clone();
-                if g.rng.chance(50) && cs.len() > 1 {
-                    cs.pop();
+                let variant = g.rng.below(4);
+                if variant >= 2 && !d.root.0 && d.branches.get(d.root.1 as usize).map_or(false, |b| b.live) {
+                    // the key array of the ROOT branch is off by one, two or three while staying sorted and inside
+                    // every interval (surplus keys lie above the largest stored key), so that the arity is the only
+                    // thing wrong: keys == children, keys == children + 1, keys == children + 2, or too few keys
+                    let rid = d.root.1;
+                    let mut ks = d.branches[rid as usize].keys.clone();
+                    let top = d.leaves.iter().filter(|l| l.live).filter_map(|l| l.keys.last().map(|k| k.0)).max().unwrap_or(0);
+                    let n = 1 + g.rng.below(3) as i64;
+                    if variant == 2 {
+                        for j in 0..n {
+                            ks.push((top.saturating_add(10 * (j + 1)), 9001 + j as u64));
+                        }
+                    } else {
+                        for _ in 0..n.min(2) {
+                            if ks.len() > 1 {
+                                ks.pop();
+                            }
+                        }
+                    }
+                    if ks.len() != d.branches[rid as usize].keys.len() {
+                        (g.exec)(format!("X branch-keys {} {}", rid, fkeys(&ks)));
+                        applied = true;
+                    }
                 } else {
-                    let extra = *cs.last().unwrap_or(&(true, 0));
-                    cs.push(extra);
+                    applied = true;
+                    if variant % 2 == 0 && cs.len() > 1 {
+                        cs.pop();
+                        if g.rng.chance(40) && cs.len() > 1 {
+                            cs.pop();
+                        }
+                    } else {
+                        let extra = *cs.last().unwrap_or(&(true, 0));
+                        cs.push(extra);
+                    }
+                    (g.exec)(format!("X branch-children {} {}", id, frefs(&cs)));
                 }
-                (g.exec)(format!("X branch-children {} {}", id, frefs(&cs)));
-                applied = true;
             }
         }
         "dangling-child" => {
@@ -1255,6 +1340,20 @@ pub fn gen_deep(rng: &mut Rng, len: usize, exec: &mut dyn FnMut(String) -> Strin
         for i in 0..first {
             exec(format!("O insert {}#{} {}", 2 * i, i + 1, i + 1));
         }
+        // positions past 65 535 INSIDE one leaf: every kind of range start, plain and fast item prefixes
+        for _ in 0..6 {
+            let a = 65_536 + rng.range(0, first - 65_536 - 20);
+            exec(format!("O range i{} e{}", 2 * a, 2 * a + 12));
+            exec(format!("O range e{} i{}", 2 * a, 2 * a + 8));
+            exec(format!("O range i{} i{}", 2 * a + 1, 2 * a + 9));
+            exec(format!("O itemsrange {} {}", 2 * a, 2 * a + 8));
+            exec(format!("O itemsfrom {} i{}", 2 * a, 2 * a + 6));
+            exec(format!("O partialrange i{} u 3", 2 * a));
+            exec(format!("O get {}", 2 * a));
+        }
+        exec(format!("O range i{} u", 2 * 65_535));
+        exec(format!("O range i{} u", 2 * 65_536));
+        exec(format!("O partial {} 2", 65_535));
         for op in ["len", "first", "last", "itemsfast", "items", "keys", "values", "fullcheck"] {
             exec(format!("O {}", op));
         }
@@ -1283,9 +1382,19 @@ pub fn gen_deep(rng: &mut Rng, len: usize, exec: &mut dyn FnMut(String) -> Strin
     let mut serial = 0u64;
     for i in 0..n {
         serial += 1;
-        exec(format!("O insert {}#{} {}", 2 * i, serial, serial));
+        if i % 4096 == 4095 {
+            // on the way up: the validators and the checked calls at every size (a tall sparse tree at each height)
+            exec("O validateop".into());
+            exec("O check".into());
+            exec(format!("O tryinsert {}#{} {}", 2 * i, serial, serial));
+            exec(format!("O tryget {}", 2 * i));
+        } else {
+            exec(format!("O insert {}#{} {}", 2 * i, serial, serial));
+        }
     }
     exec("O fullcheck".into());
+    exec("O validateop".into());
+    exec("O check".into());
     let kinds = ["i", "e"];
     for r in 0..120 {
         let a = 2 * rng.range(0, n) + if rng.chance(30) { 1 } else { 0 };
@@ -1339,6 +1448,26 @@ pub fn gen_deep(rng: &mut Rng, len: usize, exec: &mut dyn FnMut(String) -> Strin
         }
         exec("O fullcheck".into());
     }
+    exec("O len".into());
+    // drain from the FRONT all the way to the end (the first leaf absorbs its right neighbours one after the other, so
+    // slots are released in ascending order and the highest slot of the arena goes last), then grow again by more
+    // than half: every released slot has to be handed out again exactly once
+    for i in 0..n {
+        exec(format!("O remove {}", 2 * i));
+        if i % 65_536 == 65_535 {
+            exec("O counts".into());
+        }
+    }
+    exec("O fullcheck".into());
+    exec("O counts".into());
+    exec("O len".into());
+    for i in 0..(n * 2 / 3) {
+        serial += 1;
+        exec(format!("O insert {}#{} {}", 2 * i, serial, serial));
+    }
+    exec("O fullcheck".into());
+    exec("O counts".into());
+    exec("O items".into());
     exec("O len".into());
     exec("O drop".into());
 }
